@@ -94,6 +94,12 @@ def cases(tier):
         for p in (P1 + P2) if thorough else (P1[:2] + P2[:2]):
             for cs in itertools.product(tri, tri, tri):
                 out.append(program(p, list(cs), close))
+    # messages that are falsy (None, 0, '') - with the close swept over every position, also right behind the put
+    falsy = [[['TRY', [['PUT', 'ch', None]]], ['TRY', [['PUT', 'ch', 0]]]], [['D', 1], ['TRY', [['PUT', 'ch', '']]], ['TRY', [['PUT', 'ch', None]]]]]
+    for close in ('t1+', 't2'):
+        for p in ([falsy[0]], [falsy[1]], falsy):
+            for c1, c2 in itertools.product([consumer(0, 'get'), consumer(0, 'iter'), consumer(1, 'get2'), consumer(0, 'get2')], repeat=2):
+                out.append(program(p, [c1, c2], close))
     # a second channel in the same simulation: nothing crosses over
     for close in ('t2', 't4'):
         for p in P1[:3] + P2[:2]:
